@@ -213,9 +213,51 @@ pub fn check_moov(o: &mut Outcome, d: &[u8], tree: &[Node], m: &Movie, ctx: &str
         }
         let cp = &e.config_payload;
         match &e.config {
-            ConfigRecord::Avc { version, reserved6, reserved3, length_size_minus_one, .. } => {
+            ConfigRecord::Avc { version, reserved6, reserved3, length_size_minus_one, profile, sps, trailing, .. } => {
                 if *version != 1 || *reserved6 != 0x3f || *reserved3 != 7 || *length_size_minus_one != 3 {
                     o.fail("avcC", format!("avcC.layout.{}", ctx), format!("avcC version {} reserved {:#x}/{:#x} lengthSizeMinusOne {}", version, reserved6, reserved3, length_size_minus_one));
+                }
+                // ISO/IEC 14496-15 5.2.4.1.1: for the High profiles (100, 110, 122, 144 in every edition) the record continues
+                // with '111111' chroma_format(2), '11111' bit_depth_luma_minus8(3), '11111' bit_depth_chroma_minus8(3),
+                // numOfSequenceParameterSetExt(8) and that many length-prefixed units; for the other profiles nothing follows.
+                // (Profiles 244, 44, 83, 86, 118, 128 ... were added to the list by later editions: either form is accepted.)
+                let must = matches!(*profile, 100 | 110 | 122 | 144);
+                let may = matches!(*profile, 244 | 44 | 83 | 86 | 118 | 128 | 138 | 139 | 134);
+                if trailing.is_empty() {
+                    if must {
+                        o.fail("avcC", format!("avcC.high_profile_fields_missing.{}", ctx), format!("avcC for profile_idc {} ends after the picture parameter sets: chroma_format / bit depths / SPS-extension count are missing", profile));
+                    }
+                } else if !(must || may) {
+                    o.fail("avcC", format!("avcC.trailing_bytes.{}", ctx), format!("avcC for profile_idc {} carries {} bytes behind the picture parameter sets", profile, trailing.len()));
+                } else {
+                    let t = trailing;
+                    let mut ok = t.len() >= 4 && t[0] & 0xfc == 0xfc && t[1] & 0xf8 == 0xf8 && t[2] & 0xf8 == 0xf8;
+                    if ok {
+                        let mut p2 = 4usize;
+                        for _ in 0..t[3] {
+                            match t.get(p2..p2 + 2) {
+                                Some(l) => p2 += 2 + u16::from_be_bytes([l[0], l[1]]) as usize,
+                                None => {
+                                    ok = false;
+                                    break;
+                                }
+                            }
+                        }
+                        ok = ok && p2 == t.len();
+                    }
+                    if !ok {
+                        o.fail("avcC", format!("avcC.high_profile_fields_layout.{}", ctx), format!("avcC extension bytes {} do not follow the High-profile layout", hex(t, 12)));
+                    } else if let Some((chroma, luma8, chroma8)) = sps.first().and_then(|u| avc_sps_front(u)) {
+                        // the values must be those of the sequence parameter set the record carries
+                        let got = (t[0] & 3, t[1] & 7, t[2] & 7);
+                        if got != (chroma, luma8, chroma8) {
+                            o.fail(
+                                "avcC",
+                                format!("avcC.high_profile_fields_vs_sps.{}", ctx),
+                                format!("avcC says chroma_format {} bit depths 8+{} / 8+{}, its SPS says chroma_format {} bit depths 8+{} / 8+{}", got.0, got.1, got.2, chroma, luma8, chroma8),
+                            );
+                        }
+                    }
                 }
             }
             ConfigRecord::Hevc { version, arrays, trailing, .. } => {
@@ -314,6 +356,63 @@ pub fn check_moov(o: &mut Outcome, d: &[u8], tree: &[Node], m: &Movie, ctx: &str
             o.fail("trex", format!("trex.layout.{}", ctx), format!("trex {:?}", t));
         }
     }
+}
+
+/// chroma_format_idc, bit_depth_luma_minus8, bit_depth_chroma_minus8 of an H.264 sequence parameter set NAL unit of one of
+/// the profiles that code them (H.264 7.3.2.1.1); None when the unit is too short or the values are out of range.
+fn avc_sps_front(nal: &[u8]) -> Option<(u8, u8, u8)> {
+    if nal.len() < 5 || nal[0] & 0x1f != 7 {
+        return None;
+    }
+    // remove emulation prevention bytes
+    let mut rbsp = Vec::with_capacity(nal.len());
+    let mut zeros = 0;
+    for &b in &nal[1..] {
+        if zeros >= 2 && b == 3 {
+            zeros = 0;
+            continue;
+        }
+        zeros = if b == 0 { zeros + 1 } else { 0 };
+        rbsp.push(b);
+    }
+    let profile = rbsp[0];
+    if !matches!(profile, 100 | 110 | 122 | 244 | 44 | 83 | 86 | 118 | 128 | 138 | 139 | 134 | 135 | 144) {
+        return None;
+    }
+    let mut bit = 24usize; // profile_idc, constraint flags, level_idc
+    let mut rd = |n: usize| -> Option<u32> {
+        let mut v = 0u32;
+        for _ in 0..n {
+            let byte = *rbsp.get(bit / 8)?;
+            v = (v << 1) | ((byte >> (7 - bit % 8)) & 1) as u32;
+            bit += 1;
+        }
+        Some(v)
+    };
+    let ue = |rd: &mut dyn FnMut(usize) -> Option<u32>| -> Option<u32> {
+        let mut zeros = 0;
+        while rd(1)? == 0 {
+            zeros += 1;
+            if zeros > 31 {
+                return None;
+            }
+        }
+        Some((1u32 << zeros) - 1 + if zeros > 0 { rd(zeros)? } else { 0 })
+    };
+    let _sps_id = ue(&mut rd)?;
+    let chroma = ue(&mut rd)?;
+    if chroma > 3 {
+        return None;
+    }
+    if chroma == 3 {
+        rd(1)?; // separate_colour_plane_flag
+    }
+    let luma8 = ue(&mut rd)?;
+    let chroma8 = ue(&mut rd)?;
+    if luma8 > 6 || chroma8 > 6 {
+        return None;
+    }
+    Some((chroma as u8, luma8 as u8, chroma8 as u8))
 }
 
 /// seq_profile, seq_level_idx[0] and seq_tier[0] of the sequence header OBU at the start of `d` (AV1 spec 5.5.1; only the part
